@@ -94,6 +94,65 @@ pub async fn unauth_probe(h: &mut Harness, which: u32) {
     drop(conn);
     h.sim.settle().await;
     h.check_panics("C09");
+    if h.opts.http_arm && h.http0.is_some() {
+        http_token_probe(h, which).await;
+    }
+}
+
+/// The same over HTTP (runs with the HTTP arm): a request is served only with a token the server issued and
+/// has not revoked. The SDK's `HttpClient` refuses to send without a token, so "unauthenticated" is a token
+/// the server never issued, a tampered one, or one that was revoked by a logout.
+async fn http_token_probe(h: &mut Harness, which: u32) {
+    use iggy::client::{StreamClient, UserClient};
+    use iggy::http::HttpTransport;
+    let Ok(http) = iggy::http::client::HttpClient::create(std::sync::Arc::new(iggy::http::config::HttpClientConfig { api_url: "http://sim".into(), retries: 0 })) else { return };
+    let (root_name, root_password) = h.model.users.get(&1).map(|u| (u.name.clone(), u.password.clone())).unwrap_or((crate::world::ROOT_USER.into(), crate::world::ROOT_PASSWORD.into()));
+    let kind = which % 3;
+    let (token, what): (String, &'static str) = match kind {
+        0 => (format!("eyJhbGciOiJIUzI1NiJ9.{:x}.{:x}", which as u64 * 7919, which as u64 * 104729), "token_never_issued"),
+        _ => {
+            // a real token of root ...
+            let Ok(identity) = http.login_user(&root_name, &root_password).await else { return };
+            let Some(info) = identity.access_token else { return };
+            let token = info.token;
+            if kind == 1 {
+                // ... revoked by logging out
+                if http.logout_user().await.is_err() {
+                    return;
+                }
+                (token, "token_revoked_by_logout")
+            } else {
+                // ... with its signature altered
+                let mut bytes = token.into_bytes();
+                if let Some(last) = bytes.last_mut() {
+                    *last = if *last == b'A' { b'B' } else { b'A' };
+                }
+                (String::from_utf8(bytes).unwrap_or_default(), "token_tampered")
+            }
+        }
+    };
+    http.set_access_token(Some(token)).await;
+    h.stats.probe("http_request_with_invalid_token_sent");
+    let read = http.get_streams().await;
+    if read.is_ok() {
+        h.violate("C09", "unauthenticated_refused", format!("http_served:get_streams:{what}"), format!("GET /streams with a {what} was served"));
+        h.violate("C10", "only_valid_credentials", format!("http_{what}_accepted"), format!("GET /streams with a {what} was served"));
+    }
+    let name = format!("http-probe-{which}");
+    let write = http.create_stream(&name, None).await;
+    if write.is_ok() {
+        h.violate("C09", "unauthenticated_refused", format!("http_served:create_stream:{what}"), format!("POST /streams with a {what} was served"));
+        h.violate("C10", "only_valid_credentials", format!("http_{what}_accepted"), format!("POST /streams with a {what} was served"));
+        // keep the model in step: remove it again through the administrator
+        if let Some(admin) = h.clients[0].as_ref() {
+            let _ = admin.delete_stream(&iggy::identifier::Identifier::named(&name).unwrap()).await;
+        }
+    }
+    if read.is_err() && write.is_err() {
+        h.stats.probe("http_request_with_invalid_token_refused");
+    }
+    h.sim.settle().await;
+    h.check_panics("C09");
 }
 
 /// C13: frames that are not valid requests. The answer is an error or a closed connection; the effect on
